@@ -156,8 +156,9 @@ var props = map[string]*PropSpec{
 		Scens: []ScenSpec{
 			{ID: "C17P", Batch: 50, QuickRuns: 3000, QuickSecs: 60, ThoroughRuns: 300000, ThoroughSecs: 400},
 			{ID: "C17F", QuickRuns: 600, QuickSecs: 60, ThoroughRuns: 60000, ThoroughSecs: 500},
+			{ID: "C17D", QuickRuns: 400, QuickSecs: 60, ThoroughRuns: 40000, ThoroughSecs: 300},
 		},
-		CoverageRule: "C17P: real policy-mode RetryPlugin (state in MemoryCache with TTL cooldown+31 s), seeded status histories over 3 interleaved sequence ids, id reuse, clock gaps at the state's lifetime -1 ns / exactly / +1 ns; C17F: real streams engine with response flow Filter(500-599) -> Retry, cool-down waits on fake time, responses of different sequences concurrently in flight and interleaved at instrumented lock sites; non-trivial = a sequence reached exhaustion; distinct = schedule signatures among non-trivial runs",
+		CoverageRule: "C17D: real runner.DispatchOnRequest / DispatchOnResponse with real services.PoliciesServices, a fixed-response remedy that answers early with a retry-eligible status and a retry remedy; a logical call is re-sent (fresh transaction id, same sequence id) while a retry is asked for; C17P: real policy-mode RetryPlugin (state in MemoryCache with TTL cooldown+31 s), seeded status histories over 3 interleaved sequence ids, id reuse, clock gaps at the state's lifetime -1 ns / exactly / +1 ns; C17F: real streams engine with response flow Filter(500-599) -> Retry, cool-down waits on fake time, responses of different sequences concurrently in flight and interleaved at instrumented lock sites; non-trivial = a sequence reached exhaustion; distinct = schedule signatures among non-trivial runs",
 		Assumptions: []string{
 			"a logical call starts with a response whose transaction id equals its sequence id (policy mode) / after a failure verdict (flows mode)",
 			"after the retry state's lifetime (cooldown + 31 s) has passed both continuing and forgetting are accepted",
